@@ -31,6 +31,7 @@ extern "C" void __gcov_dump(void);
 #endif
 int corpus_tool_main(int argc, char **argv);
 int selftest_main(int argc, char **argv);
+int c06_dump(uint64_t seed, uint64_t run, const std::string &outdir);
 
 static double now_s() {
 	struct timespec ts;
@@ -449,6 +450,7 @@ int main(int argc, char **argv) {
 	if (cmd == "gen") return cmd_gen(argc, argv);
 	if (cmd == "trace") return cmd_trace(argc, argv);
 	if (cmd == "distinct") return cmd_distinct(argc, argv);
+	if (cmd == "c06dump" && argc >= 5) { int rc = c06_dump(strtoull(argv[2], nullptr, 0), strtoull(argv[3], nullptr, 0), argv[4]); fflush(nullptr); _exit(rc); }
 	if (cmd == "mkcorpus") return corpus_tool_main(argc, argv);
 	if (cmd == "selftest") return selftest_main(argc, argv);
 	fprintf(stderr, "unknown command %s\n", cmd.c_str());
